@@ -18,6 +18,12 @@ fn own_key<V: Fv>(seed: [u8; 32], nmsgs: usize, vseed: u64, rep: &mut Report) {
         }
     };
     let (skb, pkb) = (V::sk_to_bytes(&sk), V::pk_to_bytes(&pk));
+    if let Some(k0) = Some(&crate::pool::Key::<V> { seed, sk: sk.clone(), pk: pk.clone() }) {
+        if !crate::signer::canary::<V>(&k0.sk) {
+            rep.inconclusive("sign does not terminate or panics on a fresh key (reported by C01); this leg needs working signatures".into());
+            return;
+        }
+    }
     if !V::pq_pk_ok(&pkb) {
         rep.violation("interop:reference-rejects-own-public-key", format!("{}: PQClean does not accept pk.to_bytes()", V::NAME), replay());
         return;
